@@ -70,13 +70,9 @@ def planted_ids(rng, anchor=None):
     return sorted(set(out))
 
 
-# names of the project directory and of its parent directory: valid directory names that contain glob / shell / regex /
-# URL metacharacters, spaces and non-ASCII characters (the model names the project A; it does not care)
-DIRNAMES = ["A", "runs[v2]", "a?b", "x*", "{a,b}", "~t", "sp ace", "#h%20", "$d'q\"(p)", "é中", "[a-z]", "a.b+c^", "-dash", "w\\x"]
-
-
 def provenance(rng):
-    return {"names": [rng.choice(DIRNAMES), rng.choice(DIRNAMES)], "seed": rng.randint(0, 10 ** 9)}
+    """directory names, provenance of the Project objects; C02 switches the working directory by explicit ChDir ops"""
+    return {**wsops.provenance(rng, ("A",)), "auto": False}
 
 
 def gen_random(rng):
@@ -263,17 +259,7 @@ def run_case(desc):
     with scratch_dir("c02") as d:
         try:
             if prov:
-                # everything lives three levels below the scratch directory: a relative project path (at most three '..')
-                # evaluated from ANY of the working directories stays inside the scratch directory
-                top = os.path.join(d, "_", "_", "_")
-                base = os.path.join(top, "P" + prov["names"][1])
-                pdir = os.path.join(base, prov["names"][0])
-                cwds = [base, os.path.join(top, "c0", "x"), os.path.join(top, "c1", "y", "z"), pdir,
-                        os.path.join(top, "c2 [g]*", "q")]
-                for c in cwds:
-                    os.makedirs(c, exist_ok=True)
-                os.chdir(cwds[prov["seed"] % len(cwds)])
-                W = wsops.World(base, names={"A": prov["names"][0]}, cwds=cwds, prov_seed=prov["seed"])
+                W = wsops.provenance_world(d, prov)
             else:
                 W = wsops.World(d)
             gen = build_ops(desc, W, real_id)
